@@ -119,7 +119,7 @@ Proof.
   eexists. split.
   { unfold get_conn, set_conn. cbn [conns]. apply nth_error_upd_eq. eapply nth_error_lt; eauto. }
   cbn [cccd client_mtu encrypted pairing nq].
-  repeat split; auto.
+  repeat split; auto; try apply C.
   - rewrite A. apply written_value_bits; auto.
   - intros j N. unfold get_conn, set_conn. cbn [conns]. apply nth_error_upd_neq. auto.
 Qed.
